@@ -30,11 +30,12 @@ def run(repo, rep):
     wl = [l for l in a.loops() if isinstance(l, ast.While)]
     if not wl:
         raise AnalysisError('%s: no receive loop' % f.loc())
-    o = loop_body_outcomes(a.client, wl[0])
+    from ..sym import iteration_paths
+    ipaths, o = iteration_paths(a.client, wl[0])
     probs = []
     rq = 'asce.receive()[0]'
     n_store = n_stop = 0
-    for s, kind in [(x, 'next') for x in list(o.fall) + list(o.cont)] + [(x, 'stop') for x in o.brk] + [(x, 'stop') for x, _ in o.ret]:
+    for s, kind in ipaths:
         is_store = ('+%s.command_field == dimsemessages.CStoreRQMessage.command_field' % rq) in s.conds
         is_get = ('+%s.command_field == dimsemessages.CGetRSPMessage.command_field' % rq) in s.conds
         sn = [e for e in s.trail if e.kind == 'send']
